@@ -500,8 +500,9 @@ class AbstractJob:                                      # pylint: disable=R0902
                 else:
                     self.required.remove(requirement)
             elif isinstance(requirement, Sequence):
+                # a sequence stands for its last job
                 if requirement.jobs:
-                    self._add_one_requirement(requirement.jobs[-1])
+                    self.requires(requirement.jobs[-1], remove=remove)
             elif isinstance(requirement, (tuple, list, set)):
                 for req in requirement:
                     self.requires(req, remove=remove)
